@@ -38,6 +38,8 @@ def check(run, prog, tier):
     run.rule("C12-B", "isotropic rank-four average: M4, matchings, prefactor", minimum=8)
     run.rule("C12-C", "every orientational factor is a product of two scalar products over the four vectors", minimum=6)
     run.rule("C12-D", "signal and process tables partition the pathway types", minimum=4)
+    run.rule("C12-G", "screening thresholds scale like the quantities they are compared with (degree in a common "
+                      "dipole factor)", minimum=4)
     run.rule("C12-F", "transition dephasing is the transition width formula with the dephasing matrix (sibling "
                       "agreement of the two line-shape look-ups)", minimum=4)
     run.rule("C12-E", "every generated pathway is a well-formed double-sided diagram and takes its line shapes from "
@@ -47,6 +49,7 @@ def check(run, prog, tier):
     rule_C(run, prog, Fe, Fd)
     rule_E(run, prog)
     rule_F(run, prog)
+    rule_G(run, prog)
     m = prog.module("quantarhei.spectroscopy.twod2")
 
     class Proxy:
@@ -59,6 +62,91 @@ def check(run, prog, tier):
         def __getattr__(self, name):
             return getattr(self.run, name)
     c19.rule_A(Proxy(run), prog, m)
+
+
+def rule_G(run, prog):
+    """'Scales with the fourth power of a common dipole factor': under d -> s d every quantity has a
+    degree (D2 and D2_max: 2, a pathway prefactor: 4, tolerances given by the caller, populations,
+    evolution amplitudes and literals: 0; sqrt halves, products add).  A comparison that decides
+    whether a pathway or a line shape is computed must compare quantities of equal degree, otherwise
+    the set of pathways - and with it the response - does not scale."""
+    rid = "C12-G"
+    BASE = {"D2": 2, "D2_max": 2, "pref": 4}
+
+    def degree(e, env):
+        """degree or None (unknown / not a scaling quantity)"""
+        if isinstance(e, ast.Constant):
+            return 0
+        if isinstance(e, ast.Name):
+            return env.get(e.id, BASE.get(e.id))
+        if isinstance(e, ast.Attribute):
+            return BASE.get(e.attr)
+        if isinstance(e, ast.Subscript):
+            return degree(e.value, env)
+        if isinstance(e, ast.Call):
+            cn = call_name(e)
+            if cn == "sqrt" and e.args:
+                d = degree(e.args[0], env)
+                return None if d is None else d / 2
+            if cn in ("abs", "absolute", "real", "max", "amax", "float") and e.args:
+                return degree(e.args[0], env)
+            return None
+        if isinstance(e, ast.UnaryOp):
+            return degree(e.operand, env)
+        if isinstance(e, ast.BinOp):
+            a, b = degree(e.left, env), degree(e.right, env)
+            if isinstance(e.op, ast.Mult):
+                return None if (a is None and b is None) else (a or 0) + (b or 0)
+            if isinstance(e.op, ast.Div):
+                return None if (a is None and b is None) else (a or 0) - (b or 0)
+            if isinstance(e.op, ast.Pow) and isinstance(e.right, ast.Constant) and a is not None:
+                return a * e.right.value
+            if isinstance(e.op, (ast.Add, ast.Sub)):
+                return a if a == b else (a if b is None else (b if a is None else "mixed"))
+        return None
+    mods = [prog.module("quantarhei.builders.aggregate_spectroscopy"), prog.module("quantarhei.spectroscopy.mocktwodcalculator")]
+    funcs = []
+    for m_ in mods:
+        prog.consulted.add(m_.relpath)
+        funcs += list(m_.functions.values()) + [f for c in m_.classes.values() for f in c.methods.values()]
+    # tolerances handed to the generators as parameters take the degree of their definition in the callers
+    param_deg = {}
+    defs = []
+    for f in funcs:
+        for n in walk_no_nested(f.node):
+            if isinstance(n, ast.Assign) and isinstance(n.targets[0], ast.Name) and n.targets[0].id.endswith("_tol"):
+                d = degree(n.value, {})
+                if d not in (None, 0):
+                    param_deg.setdefault(n.targets[0].id, set()).add(d)
+                    defs.append((f, n, d))
+    npar = 0
+    for f in funcs:
+        env = {k: (list(v)[0] if len(v) == 1 else "mixed") for k, v in param_deg.items()}
+        for n in sorted(walk_no_nested(f.node), key=lambda x: getattr(x, "lineno", 0)):
+            if isinstance(n, ast.Assign) and isinstance(n.targets[0], ast.Name):
+                d = degree(n.value, env)
+                if d is not None:
+                    env[n.targets[0].id] = d
+        bad = []
+        ncmp = 0
+        for n in walk_no_nested(f.node):
+            if isinstance(n, ast.Compare) and len(n.ops) == 1 and isinstance(n.ops[0], (ast.Lt, ast.LtE, ast.Gt, ast.GtE)):
+                a, b = degree(n.left, env), degree(n.comparators[0], env)
+                if (a not in (None, 0)) or (b not in (None, 0)):
+                    ncmp += 1
+                    if a != b and not (a is None or b is None):
+                        bad.append((n, a, b))
+                    elif (a is None) != (b is None):
+                        pass      # one side is not a scaling quantity the analysis knows: not decided
+        if ncmp:
+            npar += 1
+            # the verdict is attached to the definition of the tolerance when the mismatch comes from one
+            run.obligation(rid, f.short, not bad, key="comparison-degrees",
+                           message="%s compares quantities that scale differently with a common dipole factor: %s" % (
+                               f.short, "; ".join("'%s' has degree %s against %s" % (norm(n)[:50], a, b) for n, a, b in bad[:2])),
+                           loc=f.loc(bad[0][0]) if bad else f.loc(), sample={"function": f.short, "comparisons": ncmp})
+    if npar < 4:
+        raise AnalysisError("only %d functions with dipole-scaled comparisons found" % npar)
 
 
 def rule_F(run, prog):
